@@ -199,9 +199,23 @@ func modelRead(ref drbgref.DRBG, size, chunk int, calls []srcCall) (out []byte, 
 // runPrng executes one (sequence, fault placement) on a fresh DrbgPrng and evaluates the oracle.
 // It returns the number of source calls made (used to size the fault enumeration).
 func runPrng(t *engine.T, in *inst, chunk, strength int, pers []byte, seq []pev, fault map[int]int) int {
+	return runPrngOpt(t, in, chunk, strength, pers, seq, fault, prngOpt{spare: 16})
+}
+
+// prngOpt: how the caller's buffers are presented to the wrapper (capacity class of the Read buffer, one
+// buffer reused and overwritten by the harness between calls, personalisation overwritten after construction).
+type prngOpt struct {
+	spare    int  // capacity behind the Read buffer, filled with sentinel bytes that must survive
+	reuse    bool // every Read goes into the same array, which the harness overwrites after each comparison
+	wipePers bool // personalisation is handed over with dirty spare capacity and overwritten after construction
+	nilZero  bool // Read(0) gets a nil slice
+	label    string
+}
+
+func runPrngOpt(t *engine.T, in *inst, chunk, strength int, pers []byte, seq []pev, fault map[int]int, opt prngOpt) int {
 	t.Eval(1)
 	ctx := func() string {
-		return fmt.Sprintf("[%s prng strength=%d pers=%d] %s with %s", in.name, strength, len(pers), seqName(seq), faultName(fault))
+		return fmt.Sprintf("[%s prng strength=%d pers=%d%s] %s with %s", in.name, strength, len(pers), opt.label, seqName(seq), faultName(fault))
 	}
 	fail := func(key, format string, a ...any) {
 		t.Fail(key+"/"+in.tag(), "%s — %s", ctx(), fmt.Sprintf(format, a...))
@@ -209,11 +223,30 @@ func runPrng(t *engine.T, in *inst, chunk, strength int, pers []byte, seq []pev,
 	src := &scriptSrc{fault: fault, budget: 8}
 	var prng *drbg.DrbgPrng
 	var err error
+	persArg := pers
+	var persRec, persBefore []byte
+	if opt.wipePers {
+		// the caller's personalisation string sits in a record with dirty spare capacity behind it
+		persRec = make([]byte, len(pers)+64)
+		sentinel(persRec)
+		copy(persRec, pers)
+		persArg = persRec[:len(pers)]
+		persBefore = append([]byte{}, persRec...)
+	}
 	t0 := time.Now()
-	if t.Guard("prng/new", func() { prng, err = in.newPrng(src, strength, drbg.SECURITY_LEVEL_TEST, pers) }) {
+	if t.Guard("prng/new", func() { prng, err = in.newPrng(src, strength, drbg.SECURITY_LEVEL_TEST, persArg) }) {
 		return len(src.log)
 	}
 	t1 := time.Now()
+	if opt.wipePers {
+		if !bytes.Equal(persRec, persBefore) {
+			fail("prng/new/caller-memory-modified", "the constructor modified the personalisation record at byte %d", engine.FirstDiff(persRec, persBefore))
+			return len(src.log)
+		}
+		for i := range persRec {
+			persRec[i] = 0x3c ^ byte(i*7) // the caller reuses its memory: the wrapper must have taken what it needs
+		}
+	}
 	strict, lenient, which := served(src.log)
 	if src.overrun {
 		fail("prng/new/entropy-read-loop", "constructor read the entropy source more than %d times", len(src.log))
@@ -256,13 +289,25 @@ func runPrng(t *engine.T, in *inst, chunk, strength int, pers []byte, seq []pev,
 	clk.Set(reflect.ValueOf(farFuture))
 
 	afterFault := ""
+	var shared []byte
 	for _, ev := range seq {
 		if ev.elapse {
 			clk.Set(reflect.ValueOf(farPast))
 			ref.Elapse()
 			continue
 		}
-		buf := make([]byte, ev.size+16)
+		var buf []byte
+		switch {
+		case opt.nilZero && ev.size == 0:
+			buf = nil
+		case opt.reuse:
+			if cap(shared) < ev.size+opt.spare {
+				shared = make([]byte, ev.size+opt.spare, ev.size+opt.spare+4*chunk)
+			}
+			buf = shared[: ev.size+opt.spare : ev.size+opt.spare]
+		default:
+			buf = make([]byte, ev.size+opt.spare)
+		}
 		sentinel(buf)
 		mark := len(src.log)
 		src.budget = mark + (ev.size+chunk-1)/chunk + 2
